@@ -170,6 +170,20 @@ class Lengths:
                 return self.value_forms(e[3][0], env)
             if last in ("new", "with_capacity") and "Vec" in nm:
                 return [Form()]
+            if last == "collect" and e[3]:
+                # bytes gathered from an iterator expression: once(b).chain(v).chain(..)
+                return self.iter_forms(simp(e[3][0]), env)
+            if last == "concat" and e[3]:
+                # [a, b, ..].concat(): the pieces one after the other
+                arr = simp(e[3][0])
+                while arr[0] in ("cast", "ref"):
+                    arr = simp(arr[2])
+                if arr[0] == "agg" and arr[1] == "array":
+                    out = [Form()]
+                    for piece in arr[5]:
+                        out = [x.add(y) for x in out for y in self.value_forms(simp(piece), env)]
+                    return out
+                raise Unknown("concat of %s" % expr_str(arr)[:60])
             if last == "box_assume_init_into_vec_unsafe" or last == "from_elem":
                 raise Unknown("vec literal handled by the interpreter")
             tgt = self.prog.by_norm.get(nm)
@@ -188,6 +202,28 @@ class Lengths:
                     self.cur_fn = saved
             raise Unknown("call %s" % nm)
         raise Unknown("expression %s" % expr_str(e)[:80])
+
+    def iter_forms(self, it, env):
+        """Length forms of the byte sequence an iterator expression yields."""
+        if it[0] == "ref":
+            return self.iter_forms(it[2], env)
+        if it[0] == "call":
+            nm = callee_name(it) or ""
+            last = nm.split("::")[-1]
+            if last == "once" and "iter" in nm:
+                rt = it[4][2] if len(it[4]) > 2 else ""
+                if "Once<u8>" in (rt or ""):
+                    return [Form.const(1)]
+                raise Unknown("iter::once of a non-byte item (%s)" % rt)
+            if last == "empty" and "iter" in nm:
+                return [Form()]
+            if last == "chain" and len(it[3]) == 2:
+                return [a.add(b) for a in self.iter_forms(simp(it[3][0]), env) for b in self.iter_forms(simp(it[3][1]), env)]
+            if last in ("into_iter", "iter", "copied", "cloned", "by_ref") and it[3]:
+                return self.iter_forms(simp(it[3][0]), env)
+            if last in ("map", "filter", "flat_map", "flatten", "take", "skip", "rev", "step_by", "zip", "scan"):
+                raise Unknown("iterator adaptor %s in an encoder" % last)
+        return self.value_forms(it, env)
 
     # ---------------------------------------------------------- encode interpreter
     def emit(self, fn, init=None, result=None):
